@@ -16,6 +16,8 @@ ENC = {
     "chain": ["C", "=C", "#N", "O", "(", ")", "F", "=O", "N", "[NH4+]", ".", "S"],
     "ring": ["C", "=C", "N", "O", "(", ")", "1", "2", "=1", "%10", "-1", "Cl"],
     "ringbranch": ["C", "(", ")", "1", "2", "Cl", "=C"],
+    # every bond order on a ring-closure digit / %nn label, at the opening end, the closing end or both
+    "ringorders": ["C", "N", "1", "2", "=1", "#1", "#2", "%10", "#%10", "=%10", "(", ")", "-1"],
     "stereo": ["C", "[C@H]", "[C@@]", "/C", "\\C", "=C", "(", ")", "1", "2", "/1", "F", "[C@]"],
     "bracket": ["[CH3]", "[13C]", "[N+]", "[O-]", "[Fe++]", "[C@@H]", "C", "=[N+]", "(", ")", "[H]", "[2H]", "[Se]", "[nH]"],
     "aro": ["c", "n", "[nH]", "o", "s", "C", "-c", ":c", "(", ")", "1", "2", "[n+]", "=O"],
@@ -26,6 +28,9 @@ ENC = {
     "iso": ["[0C]", "[0CH3]", "[013C]", "[00C]", "[13CH4]", "C", "(", ")", "=O", "[0C@H]", "[2H]", "[0H]", "F"],
     "arocaps": ["c", "n", "o", "[nH]", "s", "1", "(", ")", "C", "=O", "N", "[n+]"],
     "hcaps": ["[NH4]", "[CH5]", "[OH3]", "[BH4]", "C", "N", "=O", ".", "(", ")", "[NH4+]", "[CH3]", "[SiH3]", "[OH2]"],
+    # hydrogen counts and charges at the edge of what the two grammars (SMILES bracket atom, SELFIES atom symbol) can
+    # spell, under tables whose capacities are large enough for strict mode to accept them
+    "hbig": ["[UH9]", "[UH10]", "[PbH12]", "[NH10]", "[U@@H10]", "[UH010]", "[SH9]", "C", "F", "(", ")", "[N+9]", "[NH09]"],
     "bad": ["C", "C", "1", "=1", "#1", "(", ")", "%", "[", "]", "=", ".", ":", "*", "c", "X", "[Xx]", "%1"],
     "bad2": ["C", "Cl", "[Fe]", "1", ":1", "c", "(", ")", ":C", "=1", ":%12", "%12"],
 }
@@ -223,6 +228,7 @@ def check_C03(tier):
     enc_gen_replay(rep, "colon_default", ENC["colon"], "default", n, quick=quick, own=own + ("C05",))
     enc_gen_replay(rep, "iso_default", ENC["iso"], "default", n - 1, quick=quick, own=own + ("C10",))
     enc_gen_replay(rep, "hcaps_default", ENC["hcaps"], "default", n - 2, quick=quick, own=own)
+    enc_gen_replay(rep, "ringorders_hypervalent", ENC["ringorders"], "hypervalent", n, quick=quick, own=own)
     for alpha, tab, ml in [("chain", "default", n - q), ("ring", "default", n), ("bracket", "default", n - 1 - q),
                            ("ringbranch", "default", n + 2 - q), ("caps", "octet_rule", n - 1 - q), ("aro", "default", n - 1)]:
         enc_gen_replay(rep, "%s_%s" % (alpha, tab), ENC[alpha], TABLES[tab], ml, quick=quick, own=own)
@@ -550,16 +556,26 @@ def check_C06(tier):
     probe = sorted(per_table[(order[0], True)])
     rng.shuffle(probe)
     probe = probe[: (4000 if quick else 40000)]
+    rejected = [{"C": 9, "N": 9, "O": 9, "F": 9, "Cl": -1, "?": 12}, {"C": 1, "N": 1}, {"C": 8, "Xx": 1, "?": 8}, {"?": 2.5, "C": 1},
+                {"C+01": 2, "C": 8, "?": 8}, "no_such_preset"]
     try:
-        for tname in order:
+        for oi, tname in enumerate(order):
             tab = tabs[tname]
             sf.set_semantic_constraints(tab if isinstance(tab, str) else dict(tab))
+            # an update the library must reject (and whose ValueError the caller catches) changes nothing
+            bad_t = rejected[oi % len(rejected)]
+            try:
+                sf.set_semantic_constraints(bad_t if isinstance(bad_t, str) else dict(bad_t))
+                rep.violation("set_semantic_constraints(%r) was accepted" % (bad_t,), {"table": bad_t})
+                sf.set_semantic_constraints(tab if isinstance(tab, str) else dict(tab))
+            except ValueError:
+                pass
             al = per_table[(tname, True)]
             for s in probe:
                 out = de.call_encoder(s, strict=True)[:2]
                 rep.traces += 1
                 if s in al and out not in al[s]:
-                    rep.violation("encoder(%r, strict=True) under table %s after calls under other tables: %r, allowed %r" % (
+                    rep.violation("encoder(%r, strict=True) under table %s after calls under other tables and a rejected update: %r, allowed %r" % (
                         s, tname, out, sorted(al[s])), {"smiles": s, "table": tab, "order": order})
     finally:
         sf.set_semantic_constraints("default")
@@ -733,6 +749,10 @@ def check_C10(tier):
         enc_gen_replay(rep, "pool%d" % k, alpha, rng.choice(["default", "octet_rule", "hypervalent"]), 4, quick=quick, own=own, invariants=inv)
     enc_gen_replay(rep, "ringbranch_default", ENC["ringbranch"], "default", n + 2, quick=quick, own=own, invariants=inv)
     enc_narrow_deep(rep, quick, own, invariants=inv)
+    from alphabets import TABLES as _T
+    for strict in (True, False):
+        enc_gen_replay(rep, "hbig_wide_%s" % strict, ENC["hbig"], _T["wide"], 3 if quick else 4, strict=strict, quick=quick, own=own,
+                       invariants=["OutInGrammar", "WellFormedOut", "TwoOutcomes"] + (["ReencodeFixpoint"] if strict else []))
     enc_gen_replay(rep, "stereo_default", ENC["stereo"], "default", n - 1, quick=quick, own=own, invariants=inv)
     # equivalent spellings of an atom give the same symbol
     sf = de.selfies_mod()
